@@ -297,6 +297,15 @@ example : civilOfDays 36585 = { y := 2000, m := 2, d := 29 } ∧
 example : ∃ x y, civilOfMs 86399999 = some x ∧ civilOfMs 86400000 = some y ∧ x.le y ∧ x ≠ y :=
   ⟨_, _, rfl, rfl, by decide, by decide⟩
 
+/-- the spec calendar itself behaves: a common year has 365 steps, a leap year 366 -/
+example : addDays 365 { y := 1901, m := 1, d := 1 } = { y := 1902, m := 1, d := 1 } ∧
+    addDays 366 { y := 2000, m := 1, d := 1 } = { y := 2001, m := 1, d := 1 } ∧
+    addDays 365 { y := 1900, m := 1, d := 1 } = { y := 1901, m := 1, d := 1 } := by decide
+
+/-- `serial_1900` / `serial_1904` instances: 1970-01-01 is serial 25569 resp. 24107 -/
+example : dateOfSerial false 25569 = { y := 1970, m := 1, d := 1 } ∧
+    dateOfSerial true 24107 = { y := 1970, m := 1, d := 1 } := by decide
+
 /-- both edges of the span -/
 example : asDatetimeOfMs (.ms (-8332392067200000)) ≠ none ∧ asDatetimeOfMs (.ms (-8332392067200001)) = none ∧
     asDatetimeOfMs (.ms 8212476038399999) ≠ none ∧ asDatetimeOfMs (.ms 8212476038400000) = none := by
